@@ -19,8 +19,26 @@ struct Src {
     pos: usize,
     chunk: usize,
 }
+thread_local! {
+    /// (interrupt every other call, fail at this call index with PermissionDenied, call counter)
+    static FAULTS: std::cell::RefCell<(bool, usize, usize)> = std::cell::RefCell::new((false, usize::MAX, 0));
+}
+fn set_faults(intr: bool, fail_at: usize) {
+    FAULTS.with(|f| *f.borrow_mut() = (intr, fail_at, 0));
+}
 impl Read for Src {
     fn read(&mut self, out: &mut [u8]) -> io::Result<usize> {
+        let (intr, fail_at, n) = FAULTS.with(|f| {
+            let mut g = f.borrow_mut();
+            g.2 += 1;
+            (g.0, g.1, g.2 - 1)
+        });
+        if n == fail_at {
+            return Err(io::Error::from(io::ErrorKind::PermissionDenied));
+        }
+        if intr && n % 2 == 1 {
+            return Err(io::Error::from(io::ErrorKind::Interrupted));
+        }
         let n = out.len().min(self.chunk).min(self.data.len() - self.pos.min(self.data.len()));
         out[..n].copy_from_slice(&self.data[self.pos..self.pos + n]);
         self.pos += n;
@@ -94,6 +112,7 @@ const T_CONTENT_FQ: &[&str] = &["C02", "C03", "C06", "C12", "C13"];
 const T_POS: &[&str] = &["C05", "C03"];
 const T_ERR: &[&str] = &["C17", "C03", "C02", "C01"];
 const T_CONFIG: &[&str] = &["C03"];
+const T_IO: &[&str] = &["C14", "C03"];
 const T_HIST: &[&str] = &["C04", "C06", "C05"];
 const T_PANIC: &[&str] = &["C06", "C01", "C02", "C03", "C04", "C05", "C17"];
 
@@ -646,6 +665,54 @@ fn run_monitors(fmt: &str, file: &[u8], hist_len: usize, caps: &[usize]) -> Vec<
                 scen.clone(),
                 &mut fails,
             );
+            // C14: interrupted reads are invisible; a failing read surfaces as the I/O error of its kind
+            let scen_i = format!("{} file={:?} cap={} chunk={} every second read interrupted", fmt, show, cap, if chunk == usize::MAX { "whole".to_string() } else { chunk.to_string() });
+            guard(
+                &mut |fl| {
+                    set_faults(false, usize::MAX);
+                    let plain = if fmt == "fasta" { fa_seq(file, cap, chunk, maxcalls) } else { fq_seq(file, cap, chunk, maxcalls) };
+                    set_faults(true, usize::MAX);
+                    let got = if fmt == "fasta" { fa_seq(file, cap, chunk, maxcalls) } else { fq_seq(file, cap, chunk, maxcalls) };
+                    set_faults(false, usize::MAX);
+                    if got != plain {
+                        fl.push(Fail { tags: T_IO, msg: format!("interrupted reads change the outcome: {:?} vs {:?}", got, plain), scenario: scen_i.clone() });
+                    }
+                    if chunk != 2 {
+                        let nrec_plain = plain.iter().take_while(|i| i.is_some()).count();
+                        for k in 0..6usize {
+                            set_faults(false, k);
+                            let got = if fmt == "fasta" { fa_seq(file, cap, chunk, maxcalls) } else { fq_seq(file, cap, chunk, maxcalls) };
+                            let calls = FAULTS.with(|f| f.borrow().2);
+                            set_faults(false, usize::MAX);
+                            if calls <= k {
+                                continue; // the source was never asked a k-th time
+                            }
+                            // the outcome must be: leading items of the fault-free run, then the I/O error
+                            let mut ok = false;
+                            for (i, it) in got.iter().enumerate() {
+                                match it {
+                                    Some(Item::Other(m)) if m.contains("PermissionDenied") => {
+                                        ok = i <= nrec_plain && got[..i] == plain[..i];
+                                        // after the error: end of input or errors, never a fabricated record
+                                        let rest = &got[i + 1..];
+                                        let genuine = i + rest.len() <= plain.len() && rest == &plain[i..i + rest.len()];
+                                        if !genuine && rest.iter().any(|x| !matches!(x, None | Some(Item::Other(_)))) {
+                                            fl.push(Fail { tags: &["C06", "C14"], msg: format!("after an I/O error at source call {} a later read returns {:?}", k, &got[i + 1..]), scenario: scen_i.clone() });
+                                        }
+                                        break;
+                                    }
+                                    _ => {}
+                                }
+                            }
+                            if !ok {
+                                fl.push(Fail { tags: T_IO, msg: format!("a read failing at source call {} is not reported as its I/O error after the leading records: {:?}", k, got), scenario: scen_i.clone() });
+                            }
+                        }
+                    }
+                },
+                scen_i.clone(),
+                &mut fails,
+            );
             if chunk == 2 {
                 continue;
             }
@@ -789,7 +856,7 @@ fn main() {
         // The counterexample's own input shows nothing through the public API (typical for a
         // kernel that is not a parser, e.g. fill_buf): try canonical well-formed inputs, still only
         // to confirm that the defect the solver found is reachable through the public API.
-        let canon: [(&str, &[u8]); 8] = [
+        let canon: [(&str, &[u8]); 10] = [
             ("fasta", b">a\nAC\n>b\nG\n"),
             ("fasta", b"\r\n\r\n>a\r\nA\r\nC\r\n>b\r\nG"),
             ("fasta", b"\n\n\n\n>a b\nACGT\nAC\n>\n>c\nT\n\n"),
@@ -798,6 +865,8 @@ fn main() {
             ("fastq", b"@a x\r\nAC\r\n+\r\nII\r\n@b\r\nG\r\n+\r\nI"),
             ("fastq", b"@a\nAC\n+\nII\n@b\nG\n+\nI\n\r\n\n"),
             ("fastq", b"@a\nAC\n+\nII\n@b\nGG\n+a"),
+            ("fastq", b"@a\nAC\n+\nII\n@b x\nTT"),
+            ("fastq", b"@a\nACGT\n+\nIIII\n@second"),
         ];
         for (fm, data) in canon.iter() {
             if !fmts.contains(fm) {
